@@ -25,15 +25,15 @@ SPEC = {
     },
     "theorems_for_kind": {
         "ws": "C02_whitespace_spec / C02_whitespace_idempotent (the model is a port; equality)",
-        "para": "C02_paginate_conserves / C02_fragment_step_conserves / C02_whitespace_preserves_non_space",
+        "para": "C02_paginate_conserves / C02_fragment_step_conserves / C02_rewind_resumes_at_first_removed_child / C02_row_split_cell_conserved / C02_whitespace_preserves_non_space",
         "order": "C02_paginate_conserves (flow order)",
         "units": "C02_paginate_conserves",
         "draw": "C02_drawn_once",
     },
-    "rule": "three SplitMix64-seeded streams: ws = random trees of inline boxes over the five white-space modes (alphabet of blanks, tabs, CR, LF, letters) run through bo.ProcessWhitespace; text = random text documents (nested spans with white-space modes, br, inline-blocks, floats, abspos, blocks in inlines, lists, tables with header/footer groups, break-*, orphans/widows, small pages), one case per inline formatting context + one order case + one draw case per page; units = the C12 document stream; corpus first; distinct by Coq term",
+    "rule": "three SplitMix64-seeded streams: ws = random trees of inline boxes over the five white-space modes (alphabet of blanks, tabs, CR, LF, letters) run through bo.ProcessWhitespace; text = random text documents (nested spans with white-space modes, br, inline-blocks, floats, abspos, blocks in inlines, block-level floats / abspos boxes between sibling blocks, lists, tables with header/footer groups, break-*, orphans/widows, small pages; document profiles: avoid-heavy, one-line blocks, `rewind` = both plus out-of-flow siblings on pages of 3-5 lines), one case per inline formatting context (tagged with a structural diagnosis: how the observed text differs, where the boxes of the element and of the enclosing out-of-flow boxes are) + one order case + one draw case per page; units = the C12 document stream; corpus first; distinct by Coq term",
 }
 MANIFEST = {
     "text": "Coq theorems: conservation of any chain of fragmentation steps whose resume point matches what was placed (incl. the two rewind operations), conservation of the pagination model, the white-space phase-I model (port of ProcessWhitespace) is idempotent, never touches non-space characters and equals the CSS Text 3 rules for the five modes, one DrawText per visible text box; tied per run by comparing bo.ProcessWhitespace with the model and by checking, inside Coq, that the line boxes of every generated paragraph carry the model's text exactly once and in order and that text boxes match DrawText calls",
-    "note": "Trusted: Coq kernel, Go harness and generator, x/net/html. Partial: line breaking and float/abspos/table fragmentation are covered by the tie only (not modelled); five known findings (text lost or duplicated around floats / abspos / table header groups) are reported as KNOWN-FINDING lines.",
+    "note": "Trusted: Coq kernel, Go harness and generator, x/net/html. Partial: line breaking and float/abspos fragmentation are covered by the tie only (the rewind among siblings with out-of-flow boxes and the split of a table row are modelled in Layout/Fragment.v); the known findings (text lost or duplicated around floats / abspos boxes broken at a page end, dropped table header groups, four white-space / line-break deviations) are reported as KNOWN-FINDING lines, each matched by the structural trigger of its defect.",
     "technique": "Coq proof over executable model + vm_compute correspondence with the Go implementation",
 }
